@@ -193,9 +193,7 @@ def body(check):
                 o.detail = "a zero residual leaves the state unchanged, with or without local time steps: " + o.detail
     # the finite-difference Jacobian at a state with an identically vanishing component
     check.guarded("FD-STEP-ZERO", "calc_jacobian", lambda: c06.fd_step_zero(check, proj))
-    try:
-        from .c15 import const_2d
-    except ImportError:
-        const_2d = None
-    if const_2d is not None:
-        const_2d(check)
+    from . import c15
+    if check.guarded("LAYOUT-AGREE", "modeldisc.fvm2dcart", lambda: c15.layout_agree(check)):
+        check.guarded("RECON-CONST", "xnum.extrapol2d*", lambda: c15.const_2d(check))
+        check.guarded("BC-2D-SITE", "modeldisc.fvm2dcart.calc_bc", lambda: c15.bc_sites(check))
